@@ -350,7 +350,11 @@ P05Err(def, obs, top) ==
      LET f == FailLevel(Build(def, NoInherit), top)
          poss == Positionals(f.c)
          lasts == SelectSeq(poss, LAMBDA p : p.last)
-         absorbs == IF lasts # <<>> THEN lasts[1].nmax >= INF ELSE \E k \in 1..Len(poss) : poss[k].nmax >= INF
+         \* ... and that positional is still ahead: no positional behind it was filled from the command line before (with
+         \* low-index multiples the parser may already have moved on to the last positional when the `--` arrives)
+         filledIdx == {ArgOf(f.c, f.led[i].id).idx : i \in {j \in 1..Len(f.led) : f.led[j].k = "occ" /\ HasArg(f.c, f.led[j].id) /\ ArgOf(f.c, f.led[j].id).positional}}
+         stillAhead(p) == \A x \in filledIdx : x <= p.idx
+         absorbs == IF lasts # <<>> THEN lasts[1].nmax >= INF ELSE \E k \in 1..Len(poss) : poss[k].nmax >= INF /\ stillAhead(poss[k])
      IN ~(/\ \E i \in 1..Len(f.led) : f.led[i].k = "escape"
           /\ absorbs
           /\ \A k \in 1..Len(poss) : poss[k].term = <<>>)
